@@ -1,11 +1,13 @@
 (* C09 — the stale test of Dispatch(heartbeat).
    foreign_change_cancels: if the current step's precondition fails, or conf_ver advanced by more than
-   the passed steps account for, the heartbeat removes the operator from the running set — provided the
-   current (unfinished) step itself counts nothing in ConfVerChanged.  That proviso is exactly what S2
-   breaks for ChangePeerV2Leave; the full statement is refuted by a (store-side unreachable) state. *)
+   the passed steps account for, the heartbeat removes the operator from the running set.
+   Core lemma: with the proviso "the current (unfinished) step itself counts nothing in ConfVerChanged";
+   the proviso is then discharged by proof/C09_CountProof.v for every step kind (that is what the S2
+   defect of ChangePeerV2Leave.ConfVerChanged broke before it was repaired), except a RemovePeer whose
+   store holds a peer with another id - a witness shows that exception is needed. *)
 From Coq Require Import String.
 From PDV Require Import lib.Base gen.Gen_C08 gen.Gen_C09 model.C08_Steps model.C09_OpCtl
-     proof.C09_StatusProof proof.C09_CtlProof proof.C09_Skel.
+     proof.C08_ListFacts proof.C09_StatusProof proof.C09_CtlProof proof.C09_Skel proof.C09_CountProof.
 Local Open Scope list_scope.
 Local Open Scope Z_scope.
 
@@ -76,8 +78,8 @@ Lemma foreign_change_cancels_pf c rid id o r :
   let o1 := fst (op_check o r) in
   o_st o1 = STARTED ->
   forall s, snd (op_check o r) = Some s ->
-  (* the current, unfinished step counts nothing (false for ChangePeerV2Leave with pending demotions: S2) *)
-  conf_ver_changed r s = 0 ->
+  (* the current, unfinished step counts nothing when its precondition holds *)
+  (check_safety r s = None -> conf_ver_changed r s = 0) ->
   (is_some (check_safety r s) = true \/ accounted (o_steps o) (o_cur o1) < conf_ver r - o_cv o) ->
   (* ... then the heartbeat takes the operator out of the running set (a waiting operator may be promoted in its place) *)
   forall c', c' = fst (ctl_step c (EHeartbeat rid)) ->
@@ -146,26 +148,48 @@ Proof.
         pose proof (rel_op_check o r) as R. rewrite Ec in R. destruct R as (_ & _ & R3 & _ & R5 & _). cbn [fst] in R3, R5.
         rewrite R3. rewrite Z.mod_small by exact Hrange.
         assert (Hn : nth_error (o_steps oc) (o_cur oc) = Some s) by (eapply op_check_cursor; exact Ec).
-        pose proof (op_cvc_bound oc r s Hn) as B. rewrite R5 in B. rewrite Hzero in B. lia. }
+        pose proof (op_cvc_bound oc r s Hn) as B. rewrite R5 in B.
+        rewrite Hzero in B by (destruct (check_safety r s); [discriminate Hu|reflexivity]). lia. }
       rewrite Hgt. destruct (remove_operator c2 id) as [cr removed] eqn:Er. cbn [snd fst] in *. subst removed.
       cbn [fst]. apply Hend. apply frame_promote.
 Qed.
 
-(* ---------- the proviso is needed: S2 ---------- *)
-(* A state in which conf_ver is one ahead of what the operator's steps did (o_cv = 6, region at 7) while its
-   only step, a ChangePeerV2Leave with two pending demotions, is current and unapplied.  On the store side
-   this state cannot arise (a joint state admits no other configuration change), which is why S2 does not
-   surface as a wrong decision of the real controller; as a statement about the stale test it is false. *)
-Definition s2_region' : region := Region [Peer 1 101 Voter; Peer 2 102 Demoting; Peer 3 103 Demoting] 1 7 1.
-Definition s2_step' : step := ChangePeerV2Leave [] [(2, 102); (3, 103)].
-Definition s2_ctl : ctl :=
-  Ctl [(1, s2_region')] [(1, s2_region')] [Opr 1 1 6 1 [s2_step'] 0 STARTED 1 false 1 false false] [(1, 1)] [] [] [] [] 5.
+(* ---------- the proviso discharged ---------- *)
+Lemma foreign_change_cancels_full_pf c rid id o r :
+  NoDup (map fst (running c)) ->
+  alist_get (running c) rid = Some id -> get_op c id = Some o -> o_rid o = rid ->
+  alist_get (truth c) rid = Some r ->
+  0 <= conf_ver r - o_cv o < two64 ->
+  nodup_stores (peers r) = true -> region_ids_nonzero r = true ->
+  o_st (fst (op_check o r)) = STARTED ->
+  forall s, snd (op_check o r) = Some s ->
+  step_ids_nonzero s = true -> remove_names_other_peer r s = false ->
+  (is_some (check_safety r s) = true \/ accounted (o_steps o) (o_cur (fst (op_check o r))) < conf_ver r - o_cv o) ->
+  forall c', c' = fst (ctl_step c (EHeartbeat rid)) ->
+  alist_get (running c') rid <> Some id \/ exists o', get_op c' id = Some o' /\ is_end_status (o_st o') = true.
+Proof.
+  intros Hnd Hrun Ho Hrid Htruth Hrange Hnds Hids Hst s Hs Hz Hx Hcause c' Hc'.
+  eapply foreign_change_cancels_pf; eauto.
+  intros Hsafe. apply unfinished_safe_counts_nothing; auto.
+  - apply nodup_stores_ND. exact Hnds.
+  - apply op_check_unfinished with (o := o). exact Hs.
+Qed.
 
-Lemma s2_not_cancelled :
-  let c' := fst (ctl_step s2_ctl (EHeartbeat 1)) in
+(* ---------- the exception is needed ---------- *)
+(* RemovePeer{store 2, id 12} is current and unapplied while store 2 holds peer 99: RemovePeer.ConfVerChanged
+   counts the removal as done, so conf_ver being one ahead of the operator's passed steps goes unnoticed.
+   (Turning peer 12 into peer 99 on the same store takes two configuration changes, so with one peer id per
+   peer this state is not reached by a single unnoticed change.) *)
+Definition rm_region : region := Region [Peer 1 101 Voter; Peer 2 99 Learner] 1 7 1.
+Definition rm_step : step := RemovePeer 2 12.
+Definition rm_ctl : ctl :=
+  Ctl [(1, rm_region)] [(1, rm_region)] [Opr 1 1 6 1 [rm_step] 0 STARTED 1 false 1 false false] [(1, 1)] [] [] [] [] 5.
+
+Lemma rm_not_cancelled :
+  let c' := fst (ctl_step rm_ctl (EHeartbeat 1)) in
   alist_get (running c') 1 = Some 1 /\
   (exists o', get_op c' 1 = Some o' /\ o_st o' = STARTED) /\
-  check_safety s2_region' s2_step' = None /\
-  accounted [s2_step'] 0 < conf_ver s2_region' - 6 /\
-  conf_ver_changed s2_region' s2_step' = 2.
+  check_safety rm_region rm_step = None /\
+  accounted [rm_step] 0 < conf_ver rm_region - 6 /\
+  remove_names_other_peer rm_region rm_step = true.
 Proof. vm_compute. repeat split; try reflexivity. eexists. split; reflexivity. Qed.
